@@ -61,6 +61,7 @@ class Kern:
         self.env = dict(env or {})
         self.types = dict(types or {})
         self.events = []
+        self.call_hooks = {}      # name -> callable(args) giving the value of an input call (digitalRead, millis ...)
         self.steps = 0
         self.max_steps = max_steps
 
@@ -145,6 +146,8 @@ class Kern:
                 a = args[0]
                 return int(a + 0.5) if a >= 0 else -int(-a + 0.5)
             self.events.append((nm, tuple(args)))
+            if nm in self.call_hooks:
+                return self.call_hooks[nm](tuple(args))
             return 0
         if t == "mcall":
             args = [self.ev(a) for a in e[3]]
